@@ -102,7 +102,7 @@ def capObs (op idx client kind c k plen n p : String) : Unit × String :=
     | none => bad idx
   | _, _, _, _ => bad idx
 
-def step (_ : Unit) (ws : List String) : Unit × String :=
+def stepCore (_ : Unit) (ws : List String) : Unit × String :=
   let bad (idx : String) := ((), idx ++ " bad-op")
   match ws with
   | ["dec", idx, c, k, fmt, p] =>
@@ -231,6 +231,12 @@ def step (_ : Unit) (ws : List String) : Unit × String :=
       if p2.length ≠ n2 * t2.width then bad idx
       else ((), idx ++ " " ++ showN showElems (decodeTypedSlice F BEVE t (encodeTypedRaw t2 n2 p2)))
     | _, _, _, _ => bad idx
+  | ["caprf", idx, _client, _kind, c, k, fmt, n, p] =>
+    match tyOf c k, fmt.toNat?, n.toNat?, unhex p with
+    | some t, some fmt, some n, some p =>
+      if p.length ≠ n * t.width then bad idx
+      else ((), idx ++ " " ++ showN showElems (decodeTypedSlice F fmt t (encodeTypedRaw t n p)))
+    | _, _, _, _ => bad idx
   | ["abld", idx, c, k, mis, _wire, q, n, p] =>
     match tyOf c k, mis.toNat?, unhex q, n.toNat?, unhex p with
     | some t, some mis, some q, some n, some p =>
@@ -319,6 +325,13 @@ def step (_ : Unit) (ws : List String) : Unit × String :=
     | _, _, _, _, _, _, _ => bad idx
   | _ :: idx :: _ => bad idx
   | _ => ((), "bad-op")
+
+/-- `frag`: how the bytes of a request arrive is not the model's business — the same answer as `net`. -/
+def step (u : Unit) (ws : List String) : Unit × String :=
+  match ws with
+  | ["frag", idx, srv, _cuts, kind, route, c, k, plen, n, p] =>
+    stepCore u ["net", idx, srv, "raw", kind, route, c, k, plen, n, p]
+  | _ => stepCore u ws
 
 end Repe.Driver.Numeric
 
